@@ -3,6 +3,7 @@
   WBS.tasks lists every member once, depth first.
 -/
 import PjVerif.Lemmas.GraphTasks
+import PjVerif.Lemmas.TaskSrcD
 namespace Pj
 
 /-- no accepted or rejected operation can make two different tasks of one WBS / one detached tree share an id -/
@@ -54,5 +55,31 @@ theorem C05_tasks_preorder (s : G) (w : Uid) (hi : Inv s) (l : List Uid) (hl : w
         l.idxOf a < l.idxOf b) :=
   ⟨descF_segment s.children s.fuel w l hl,
    fun p a b hp hab hidx hb => descF_order s hi.wf s.fuel w l hl p a b hp hab hidx hb⟩
+
+/-! ### the tie of the relation setters of `Task` to the current source, by translation (tools/extract_task.py → Extracted/TaskSrc.lean,
+    Lemmas/TaskSrc*.lean): the statements above are about the model's `setParent` / `setPreds` / `setSuccs` / `setChildren`; these say that
+    the model's functions are what the CURRENT task.py computes -/
+
+/-- running the translated `parent` setter (with `_find_root`, `_collect_subtree`, `_has_id_intersection`, `_linked_with_any`, `_attach`,
+    `_detach`, `all_parents`, `all_children` as translated callees) on the encoding of a well-formed state gives the encoding of the
+    model's new state when the model accepts and the model's error when it rejects - unless the model's fuel runs out -/
+theorem C05_source_set_parent (s : G) (hw : WF s) (t : Uid) (p : Option Uid) (F : Nat) (hF : s.n + 6 ≤ F)
+    (hrec : (setParent s t p).2 ≠ some (.crash .recursion)) :
+    TaskSrc.interpSetParent F t p (TaskSrc.encSt s) = TaskSrc.setterResult (TaskSrc.encSt s) (setParent s t p) :=
+  TaskSrc.interpSetParent_eq_wf s hw t p F hF hrec
+
+/-- the translated `children` setter (validations, release of the old children, the loop of `v.parent = self` assignments - each
+    running the translated `parent` setter on an intermediate state) is the model's `setChildren`, for every state -/
+theorem C05_source_set_children (s : G) (st : PyLite.PState) (hh : st.heap = TaskSrc.encHeap s) (h : Uid) (v : PyLite.Val)
+    (l : List Uid) (hv : TaskSrc.ValueOf v l) (F : Nat) (hF : s.n + 6 ≤ F) (hrec : (setChildren s h l).2 ≠ some (.crash .recursion)) :
+    TaskSrc.interpSetChildren F h v st = TaskSrc.setterResult st (setChildren s h l) :=
+  TaskSrc.interpSetChildren_eq s st hh h v l hv F hF hrec
+
+/-- the translated `_has_id_intersection` (the id clash test both hierarchy setters run before they write) is the model's
+    `hasIdIntersection` -/
+theorem C05_source_has_id_intersection (s : G) (st : PyLite.PState) (hh : st.heap = TaskSrc.encHeap s) (p : Uid) (chs : List Uid) (b : Bool)
+    (h : hasIdIntersection s p chs = some b) (F : Nat) (hF : s.fuel + 2 ≤ F) :
+    (TaskSrc.Hd F).fnV Extracted.fn_has_id_intersection [.atom (.ref p), TaskSrc.refs chs] st = .ok (.atom (.bool b), st) :=
+  TaskSrc.has_id_intersection_spec s st hh p chs b h F hF
 
 end Pj
